@@ -1,14 +1,9 @@
 (* Model/InvertPL.v — hand model of score_analysis/utils.py: invert_pl_function and of
    score_analysis/scores.py: Scores.threshold_at_metric.  Follows the Python statement by statement
    (exact rational arithmetic, DESIGN 3.3).  No proofs here. *)
-From SA Require Export Base.Prelude Model.Scores.
+From SA Require Export Base.Prelude Base.Res Model.Scores.
 From Coq Require Export Qabs.
 Open Scope Q_scope.
-
-(* result of a call that may raise ValueError *)
-Inductive res (A : Type) : Type := Ok (a : A) | ErrValue.
-Arguments Ok {A} a.
-Arguments ErrValue {A}.
 
 (* ------------------------------------------------------------------ invert_pl_function *)
 
